@@ -10,6 +10,14 @@ NOT_APPLICABLE = {
 
 # id -> (engine, level category, level text, level note, technique, design_ref)
 CHECKS = {
+    "C35": ("World", "exploration",
+            "Network-world simulation of 3-6 participants with real key managers, registries, EncryptionGroup / DCGKA / 2SM / SecretBundle and the crate's MessageOrderer: histories of create / add / remove / update / data with concurrency, delivered by a harness causal broadcast with reordering inside the causal constraints, duplicates and partitions that heal; at quiescence every current member must hold and report the same latest secret and decrypt every other member's data, and no removed member may hold a secret generated after its removal was applied.",
+            "Causal delivery is provided by the harness (as the stack above the crate must); the group-membership CRDT is a two-phase set stub (SimDgm) because the crate's TestDgm never welcomes an added member. HPKE inside hpke-rs draws OS randomness; no outcome depends on ciphertext bytes.",
+            "deterministic simulation with fault injection: causal broadcast with reorder / duplicate / partition over real group-encryption state", "§4 C35"),
+    "C37": ("World", "exploration",
+            "World simulation of Alice and Bob with real KeyManagers and TwoParty states: messages in both directions (incl. concurrent initiation), arbitrary interleaving across directions with FIFO per direction, and replays of already processed messages at seeded later points; every first delivery must decrypt to exactly its plaintext, every replay must be rejected, later messages must still decrypt.",
+            "One-time and long-term pre-key bundle modes. On Err the receiver keeps the state it passed in (state-passing API).",
+            "deterministic simulation with fault injection: interleaving and replay of two-party messages", "§4 C37"),
     "C11": ("StepExec", "exploration",
             "Seeded search over random dependency DAGs (chains, diamonds, repeated dependency entries, dependencies that never arrive) and delivery orders with duplicates — plus every delivery permutation of small DAGs — through the real Orderer processor over the real SQLite OrdererStore; safety on the output sequence (every dependency, as a set, released earlier), completeness against the least fixpoint of 'all dependencies released'.",
             "One process()/next() call in flight at a time, next() cancelled when it parks with nothing ready (as Buffer does). An item may be released more than once after a duplicate delivery (the property does not forbid it).",
